@@ -408,6 +408,19 @@ def replay(path):
         print("rebuilt:", None if rebuilt is None else jtree(clades_of(rebuilt, back)))
         if rebuilt is None or clades_of(rebuilt, back) != clades:
             return 1
+    elif op in ("supertree", "allsuper"):
+        inputs = [frozenset(frozenset(c) for c in t) for t in case["inputs"]]
+        leaves = sorted(set().union(*[max(t, key=len) for t in inputs]))
+        back = {name_of(x, 0): x for x in leaves}
+        trees = [tree_from_clades(A, t, None, 0) for t in inputs]
+        one = mc.safe(A.trees.supertree, [t.copy() for t in trees])
+        allt = mc.safe(A.trees.all_supertrees, [t.copy() for t in trees])
+        print("observed supertree:", one if one is None or isinstance(one, mc.Raised) else jtree(clades_of(one, back)))
+        if isinstance(one, mc.Raised) or isinstance(allt, mc.Raised):
+            return 1
+        ev = {"inputs": case["inputs"]}
+        events.append(dict(ev, op="supertree", ok=one is not None, tree=[] if one is None else jtree(clades_of(one, back))))
+        events.append(dict(ev, op="allsuper", trees=[jtree(clades_of(t, back)) for t in allt]))
     else:
         print("replay of", op, "events: rerun the check with the recorded seed")
         return 2
